@@ -40,6 +40,28 @@ def real_member(rng, d):
     return c, style
 
 
+def sparse_member(rng, d):
+    """a member of the real family written the way the API takes it - in the MONOMIAL basis - with exact zero coefficients
+    of the polynomial's own parity (a x^d, a x^d + b x^(d-4), ...): membership is checked on its Chebyshev vector"""
+    for _ in range(60):
+        idx = [i for i in range(d, -1, -2)]
+        keep = [d] + [i for i in idx[1:] if rng.random() < 0.35]
+        if len(keep) == len(idx) and len(idx) > 1:
+            keep = keep[:-1]
+        p = np.zeros(d + 1)
+        for i in keep:
+            p[i] = float(rng.choice([-1, 1])) * float(rng.choice([1.0, 0.5, 0.8, 3.2, 2.0, float(rng.uniform(0.2, 4))]))
+        c = np.polynomial.chebyshev.poly2cheb(p)
+        c = np.concatenate([c, np.zeros(d + 1 - len(c))])
+        n1 = float(np.abs(c).sum())
+        s = float(rng.uniform(0.12, 0.88)) / n1
+        p, c = p * s, c * s
+        n1 = float(np.abs(c).sum())
+        if 0.1 <= n1 <= 0.9 and abs(c[d]) >= 0.1 * n1 and any(p[i] == 0.0 for i in idx):
+            return [float(x) for x in p]
+    return None
+
+
 # members of the complex family on which the unchanged tree once failed (see known_findings.json, "fixed")
 FIXED_SEQUENCES = [
     [-1.062061038077506, -2.4008680110571747, 2.1491790339618975, -2.4008680110571747, -0.8686210797744094],
@@ -47,6 +69,8 @@ FIXED_SEQUENCES = [
     [0.29389951695685923, -0.35673204743199216, -1.9078777505684257, -0.3719463283279012, -1.9078777505684257, -0.35673204743199216, -1.3049758648996201],
 ]
 FIXED = []
+# interior phases (all >= 0.3 rad from odd multiples of pi/2) of sequences whose corner is exactly e^{i(phi_0+phi_d)} x^d
+EXACT_CORNERS = {1: [[]], 3: [[-math.pi / 3, math.pi / 3]], 5: [[-2 * math.pi / 5, math.pi / 5, -math.pi / 5, 2 * math.pi / 5]]}
 
 
 def run(tier, seed):
@@ -69,6 +93,11 @@ def run(tier, seed):
         for _ in range(reps):
             c, style = real_member(rng, d)
             p = P.mono_from_cheb(c)
+            if rng.random() < 0.45:
+                sp = sparse_member(rng, d)
+                if sp is not None:
+                    p, style = sp, "sparse-monomial"
+            ctx.count("real-style:" + style)
             so = str(rng.choice(["Wx", "Wz"]))
             with core.quiet(), P.forced_seed([0] * 256) as calls:
                 try:
@@ -141,10 +170,24 @@ def run(tier, seed):
                     ph0[0] = ph0[-1] = 0.0
             ctx.count("complex-style:" + style)
             ph0 = [float(x) for x in ph0]
+            if d in EXACT_CORNERS and EXACT_CORNERS[d] and rng.random() < 0.5:
+                # corners whose coefficient vector is known in closed form and handed over with its exact zeros: e^{ia} x^d
+                seq = EXACT_CORNERS[d][0]
+                a0, a1 = float(rng.uniform(-math.pi, math.pi)), float(rng.uniform(-math.pi, math.pi))
+                ph0, style = [a0] + list(seq) + [a1], "exact-monomial-corner"
+                ctx.count("complex-style:exact-monomial-corner")
+                Pexact = np.zeros(d + 1, dtype=complex)
+                Pexact[d] = np.exp(1j * (a0 + a1))
+            else:
+                Pexact = None
             if FIXED and len(FIXED[0]) == d + 1:          # sequences that failed before a repair: always replayed first
                 ph0, style = FIXED.pop(0), "regression"
                 ctx.count("complex-style:regression")
             Pc = P.corner_poly(ph0)
+            if Pexact is not None and style == "exact-monomial-corner":
+                if np.abs(np.asarray(Pc) - Pexact).max() > 1e-12:
+                    raise core.InfraError("exact corner table wrong for degree %d" % d)
+                Pc = list(Pexact)
             try:
                 with core.quiet():
                     ph = [float(x) for x in A.QuantumSignalProcessingPhases(np.array(Pc), signal_operator="Wx", measurement="z")]
